@@ -113,6 +113,7 @@ func main() {
 	}
 	if *vclock != "" {
 		proposeWith()
+		lotteryCore()
 	}
 	b, _ := json.MarshalIndent(ov, "", " ")
 	must(os.WriteFile(filepath.Join(*out, "overlay.json"), b, 0o644))
